@@ -5,7 +5,7 @@ Case = [path, iov, chunk specs, T, ri, [], [], impl, [sndbuf, piece, delay_ms, t
   impl 6  TCPNetworkClient.send_packet over loopback TCP, SO_SNDBUF / SO_RCVBUF shrunk                  (path 5)
   impl 7  SSLStreamTransport.send_all_from_iterable, real TLS handshake with a peer thread (join path)  (path 6)
   impl 9  AsyncTLSStreamTransport.send_all_from_iterable on a real ssl.SSLObject (tlskit peer)          (path 7)
-Observable: [outcome, digest(bytes the peer received / decrypted), [], 0]; the real timeouts are very generous (300 s: a loaded machine must not turn into a TimeoutError) (the
+Observable: [outcome, digest(bytes the peer received / decrypted), [], 0]; the real time limits are watchdogs (realio.LIMIT; after the first stuck case realio.SHORT and the rest is skipped) (the
 budget itself is C11's subject and is checked on the virtual clock).
 """
 from __future__ import annotations
@@ -15,11 +15,10 @@ import math
 import iosim
 import realio
 
-JOIN_WATCHDOG = 400.0     # generous: only reached when something is really stuck
 
 
 def _finish(reader, outcome):
-    reader.join(JOIN_WATCHDOG)
+    reader.join(realio.limit(2.5))
     if reader.is_alive():
         return [8, realio.digest(bytes(reader.data)), [], 0]
     if reader.error is not None and outcome == 0:
@@ -29,7 +28,7 @@ def _finish(reader, outcome):
 
 def _call(fn):
     try:
-        with iosim.alarm(400.0):
+        with iosim.alarm(realio.limit(2.5)):
             fn()
         return 0
     except BaseException as exc:  # noqa: BLE001
@@ -56,7 +55,7 @@ def run_plain(inp):
     constants.SC_IOV_MAX = iov
     reader.start()
     try:
-        outcome = _call(lambda: transport.send_all_from_iterable(iter(c04._typed(chunks)), 300.0))
+        outcome = _call(lambda: transport.send_all_from_iterable(iter(c04._typed(chunks)), realio.limit()))
     finally:
         constants.SC_IOV_MAX = saved
         transport.close()
@@ -85,7 +84,7 @@ def run_tcp_client(inp):
     constants.SC_IOV_MAX = iov
     reader.start()
     try:
-        outcome = _call(lambda: client.send_packet(c04._typed(chunks), timeout=300.0))
+        outcome = _call(lambda: client.send_packet(c04._typed(chunks), timeout=realio.limit()))
     finally:
         constants.SC_IOV_MAX = saved
         client.close()
@@ -114,10 +113,10 @@ def run_tls_socket(inp):
     transport = None
     try:
         transport = SSLStreamTransport(a, tlskit.client_ctx(ver), ri_s, server_hostname="localhost", server_side=False,
-                                       handshake_timeout=300.0, shutdown_timeout=2.0, standard_compatible=False,
+                                       handshake_timeout=realio.limit(), shutdown_timeout=2.0, standard_compatible=False,
                                        selector_factory=factory)
         handshake_waits = factory.waits
-        outcome = _call(lambda: transport.send_all_from_iterable(iter(c04._typed(chunks)), 300.0))
+        outcome = _call(lambda: transport.send_all_from_iterable(iter(c04._typed(chunks)), realio.limit()))
         realio.note_waits(factory.waits - handshake_waits)
     except BaseException as exc:  # noqa: BLE001 - handshake failure
         if isinstance(exc, (KeyboardInterrupt, SystemExit)):
@@ -151,7 +150,7 @@ def run_async_tls_real(inp):
         rec = tlskit.Recorder()
         mem = tlskit.MemTransport(rec, peer, tlskit.new_backend())
         tls = await AsyncTLSStreamTransport.wrap(mem, tlskit.client_ctx(ver), server_hostname="localhost",
-                                                 handshake_timeout=300.0, shutdown_timeout=1.0)
+                                                 handshake_timeout=realio.limit(), shutdown_timeout=1.0)
         try:
             await tls.send_all_from_iterable(iter(c04._typed(chunks)))
         except BaseException as exc:  # noqa: BLE001
@@ -161,7 +160,7 @@ def run_async_tls_real(inp):
         peer.pump()
         mem.closing = True
 
-    with iosim.alarm(400.0), detloop.running() as loop:
+    with iosim.alarm(realio.limit(2.5)), detloop.running() as loop:
         try:
             loop.run_until_complete(main())
         except detloop.DeadlockError:
@@ -169,6 +168,13 @@ def run_async_tls_real(inp):
     return [outcome, realio.digest(bytes(peer.plain_in)), [], 0]
 
 
-def run(inp):
+def run(inp, force=False):
+    """force=True (property oracle): run even after the stream was marked stuck (with the short limits)."""
+    import time
     impl = inp[7]
-    return {5: run_plain, 6: run_tcp_client, 7: run_tls_socket, 9: run_async_tls_real}[impl](inp)
+    if not force and realio.skip_now():
+        return [45, realio.digest(b""), [], 0]
+    t0 = time.monotonic()
+    out = {5: run_plain, 6: run_tcp_client, 7: run_tls_socket, 9: run_async_tls_real}[impl](inp)
+    realio.note_duration(time.monotonic() - t0, out[0] == 0)
+    return out
